@@ -125,7 +125,7 @@ func evalConst(v ssa.Value, depth int) (int64, bool) {
 		okAll := true
 		instrs(cal, func(b *ssa.BasicBlock, i int, in ssa.Instruction) {
 			if ret, ok := in.(*ssa.Return); ok && len(ret.Results) == 1 {
-				n, ok := evalConst(ret.Results[0], depth+1)
+				n, ok := evalConst(returnedValue(ret, 0), depth+1)
 				if !ok || (found && n != val) {
 					okAll = false
 				}
